@@ -18,7 +18,7 @@ def main(argv):
     dst = os.path.join(HERE, "seeded", name)
     os.makedirs(dst, exist_ok=True)
     for f in ("patch.diff", "demo.py", "notes.md"):
-        if os.path.exists(os.path.join(src, f)):
+        if os.path.exists(os.path.join(src, f)) and os.path.abspath(src) != os.path.abspath(dst):
             shutil.copy(os.path.join(src, f), os.path.join(dst, f))
     r = subprocess.run([sys.executable, "-m", "vf.seedcheck", dst, "--checks", checks], cwd=HERE, capture_output=True, text=True)
     print(r.stdout[-1500:])
